@@ -97,7 +97,7 @@ def detect(d):
 
 def _refresh_one(args):
     sid, prop = args
-    sys.path.insert(0, '/verif')
+    sys.path.insert(0, os.path.dirname(os.path.abspath(__file__)))
     import importlib
     from sa.core import Repo, AnalysisError, DEFAULT_ROOT
     from sa.selftest import apply_unified_diff
